@@ -343,6 +343,14 @@ def classify(rep, ex: Explorer, fn: str):
             rep.violation("REV.classify", site, f"outcome {p.outcome[0]}", "the compilation of well-formed conditionals returns", extracted=repr(p.outcome[1])[:100], required="return", function=site)
             continue
         masked = {k: (decided(p, ("masknone", k)) is False) for k in (1, 2)}
+        from ..harness import early_exits
+        left = [(lev, case) for lev, case in early_exits(p) if case.sig[0] in ("break", "return") and lev.fam == preocf.WORLDS]
+        if left:
+            lev, case = left[0]
+            g = " ∧ ".join(show_pred(k if v else ("not", k))[:60] for k, v in case.guard) or "always"
+            rep.violation("REV.classify", f"{site}:{lev.node.lineno}", "every world", "every world of the prior ranking is classified: the loop over the worlds runs to its end",
+                          extracted=f"the loop over the worlds is left by {case.sig[0]} at a world with {g}: the worlds after it are not compiled", required="skip that world only (continue)", function=site)
+            continue
         check_sig_index(rep, site, p)
         label = "masks " + ",".join(f"c{k}:{'literal' if masked[k] else 'solver'}" for k in (1, 2))
         n += compare_compilation(rep, "REV.classify", site, label, p.state, p.outcome[1], ["w"], (1, 2), envs_for(["w"], masked), site)
@@ -823,6 +831,12 @@ def encoding(rep, ex: Explorer):
         if p.outcome[0] != "return":
             rep.violation("REV.relation", site, "outcome", "encoding returns the constraint list", extracted=repr(p.outcome)[:100], required="return", function=site)
             continue
+        from ..harness import early_exits
+        for lev, case in early_exits(p, IDX):
+            if case.sig[0] in ("break", "return"):
+                g = " ∧ ".join(show_pred(k if v else ("not", k))[:60] for k, v in case.guard) or "always"
+                rep.violation("REV.relation", f"{site}:{lev.node.lineno}", "every conditional", "every revision conditional with a falsifying world gets its acceptance constraint: the loop over the conditionals runs to its end",
+                              extracted=f"the loop is left by {case.sig[0]} at a conditional with {g}: the conditionals after it get no constraint", required="skip that conditional only (continue)", function=site)
         kept = set()
         rv = view(p.state, p.outcome[1])
         for ev, Q in iter_events(p.events):
